@@ -21,7 +21,7 @@ RULE = ('(i) value level: pairs (v1, v2) of JSON-like values / parameter objects
         'argument of a parameter object) of one task of a generated pipeline is changed, or an input is rewired to another computation; every task in '
         '{U} U descendants(U) must move and no other task may. (iii) over everything observed in a case the map location -> computation descriptor must be '
         'a function. non-trivial = pair whose frozen-scheme texts differ in <= 3 characters or graph case with >=1 descendant; distinct = hash of the pair / case')
-REQUIRED = ['long_value_pairs', 'object_value_pairs', 'default_elision_pairs', 'value_pairs', 'near_pairs', 'graph_cases', 'moved_tasks_checked', 'unmoved_tasks_checked', 'object_arg_mutations', 'rewirings', 'same_dir_cases',
+REQUIRED = ['long_value_pairs', 'object_value_pairs', 'default_elision_pairs', 'value_pairs', 'near_pairs', 'graph_cases', 'moved_tasks_checked', 'unmoved_tasks_checked', 'object_arg_mutations', 'rewirings', 'same_dir_cases', 'written_paths_checked',
             'locations_in_injectivity_check']
 ASSUMPTIONS = ['pairs that Python considers equal (1 == 1.0 == True, -0.0 == 0.0) and NaN are not used',
                'known finding (open): strings are quoted without escaping in the key text, so values whose frozen 1.4.0 texts coincide and that contain a single '
@@ -238,7 +238,16 @@ def run_value_pairs(rng, n, res: CaseResult, witness=False):
                 pairs.append((parent, {'class': OS, 'kwargs': {'a': x}}, 'obj'))
                 pairs.append(({'class': O, 'kwargs': {'a': x, 'b': 3}}, {'class': O, 'kwargs': {'a': x, 'b': 4}}, 'obj'))
                 pairs.append(({'class': OS, 'kwargs': {'a': x, 'b': 'z', 'limit': l1}}, {'class': OS, 'kwargs': {'a': x, 'b': 4, 'limit': l1}}, 'obj'))
-                res.count('object_value_pairs', 6)
+                # order of list items inside constructor arguments (top level, inside a mapping, lists of nested objects)
+                P = 'tc_verif.lab.runtime.LabObjPlain'
+                items = rng.sample(['double', 'inc', 'zz', 'a', 'b', 'c'], 3)
+                perm = items[1:] + items[:1]
+                pairs.append(({'class': O, 'kwargs': {'a': items}}, {'class': O, 'kwargs': {'a': perm}}, 'obj'))
+                pairs.append(({'class': O, 'kwargs': {'a': {'steps': items, 'n': 1}}}, {'class': O, 'kwargs': {'a': {'steps': items[::-1], 'n': 1}}}, 'obj'))
+                n1, n2 = {'class': P, 'kwargs': {'x': 1}}, {'class': P, 'kwargs': {'x': 2}}
+                pairs.append(({'class': O, 'kwargs': {'a': [n1, n2]}}, {'class': O, 'kwargs': {'a': [n2, n1]}}, 'obj'))
+                pairs.append(({'class': OS, 'kwargs': {'a': 1, 'limit': [3, 1, 2]}}, {'class': OS, 'kwargs': {'a': 1, 'limit': [1, 2, 3]}}, 'obj'))
+                res.count('object_value_pairs', 10)
         for a, b, mode in pairs[:n + 4]:
             if mode == 'dflt':
                 try:
@@ -438,6 +447,20 @@ def run_same_dir_case(rng, res: CaseResult):
         res.count('build_failed_not_judged_here')
         return
     res.count('same_dir_cases')
+    # every file or directory a computation creates or writes (result, scratch, run info, log, work / error directories) carries ITS key in its name:
+    # two different computations of one task must not meet in a shared scratch name either
+    allowed = {refscheme.rel_dir(t_['slug']) + '/' + t_['key'] for t_ in ref.tasks.values()}
+    for o_ in st[1:1 + len(names)]:
+        for ev, path in o_.get('fs', []):
+            if ev not in ('open_w', 'os.mkdir', 'os.rename', 'os.replace', 'shutil.move'):
+                continue
+            for p_ in path.split(' -> '):
+                res.count('written_paths_checked')
+                if not any(p_.startswith(a_) or a_.startswith(p_ + '/') for a_ in allowed):
+                    res.violate(f'while computing {o_.get("task")}: `{ev} {path}` touches a name in the data directory that does not carry the key of any computation '
+                                f'of this chain (a scratch name shared between different computations of a task)', witness={'spec': spec, 'root': root},
+                                facts={'tag': 'shared_scratch_name'})
+                    break
     s1, s2 = st[-2]['snapshot']['tasks'], st[-1]['snapshot']['tasks']
     witness = {'spec': spec, 'root': root, 'second_root_context': data, 'task': n}
     for m in ref.tasks:
